@@ -41,23 +41,13 @@ package partition
 //@     invariant ptsok(s) && s.r == old(s.r) && ptrem(s) < old(ptrem(s)) && gf(buflen, buf) >= 1
 //@     decreases ptrem(s)
 
-// Scan: either the end-of-file token, or at least one rune has been consumed; the token is one of the declared kinds
-//@ func (*Scanner).Scan
-//@   props C03
-//@   requires ptsok(s)
-//@   ensures ptsok(s) && s.r == old(s.r) && ptrem(s) <= old(ptrem(s))
-//@   ensures tok == EOF || ptrem(s) < old(ptrem(s))
-//@   ensures tok == EOF || tok == ENDOFLINE || tok == SEPARATOR || tok == EQUAL || tok == RANGE || tok == MODULO || tok == IDENTIFIER || tok == DECIMAL
-//@   ensures tok == IDENTIFIER || tok == DECIMAL ==> len(lit) >= 1
-//@   modifies gfield(s.r, rem), gfield(s.r, unread), gf(buflen), gfa(bufdata)
-//@   loop 1
-//@     invariant ptsok(s) && s.r == old(s.r) && ptrem(s) <= old(ptrem(s))
-//@     invariant ch != 0 ==> ptrem(s) < old(ptrem(s)) && gfield(s.r, unread) == 1
-//@     decreases ptrem(s) + (ch == ' ' ? 1 : 0)
+// ((*Scanner).Scan: its contract is in zz_contracts_c04c_verif.go: it now also serves C04)
 
 // ---- parser ----
 
-//@ pure func ptpok(p *Parser) bool = p != nil && ptsok(p.s) && (p.buf.n == 0 || p.buf.n == 1)
+// (C04c) two more conjuncts: the token kept for unscan is a DECIMAL only if its text parses as a 64-bit decimal (what Scan guarantees),
+// and the token log is in step with the one-token buffer (ptlogok, zz_contracts_c04c_verif.go)
+//@ pure func ptpok(p *Parser) bool = p != nil && ptsok(p.s) && (p.buf.n == 0 || p.buf.n == 1) && (p.buf.tok == DECIMAL ==> str_dec64(p.buf.lit)) && ptlogok(p)
 //@ pure func ptM(p *Parser) int = 2 * ptrem(p.s) + p.buf.n
 
 // constructors: a new parser is ready to parse (observation point of C03: NewParser(bytes).Parse(length))
@@ -71,34 +61,7 @@ package partition
 //@   ensures result != nil && fresh(result) && ptpok(result) && result.buf.n == 0
 //@   modifies nothing
 
-// scan: the end-of-file token, or the progress measure strictly decreases
-//@ func (*Parser).scan
-//@   props C03
-//@   requires ptpok(p)
-//@   ensures ptpok(p) && p.s == old(p.s) && p.s.r == old(p.s.r) && ptM(p) <= old(ptM(p)) && p.buf.n == 0
-//@   ensures tok == EOF || ptM(p) < old(ptM(p))
-//@   modifies p.buf.n, p.buf.tok, p.buf.lit, gfield(p.s.r, rem), gfield(p.s.r, unread), gf(buflen), gfa(bufdata)
-
-//@ func (*Parser).unscan
-//@   props C03
-//@   requires ptpok(p)
-//@   ensures ptpok(p) && p.buf.n == 1 && ptrem(p.s) == old(ptrem(p.s)) && p.s == old(p.s) && p.s.r == old(p.s.r)
-//@   modifies p.buf.n
-
-// parse: terminates on every input; the partition set stays a well-formed map over the same length
-//@ func (*Parser).parse
-//@   props C03
-//@   arith wrap64
-//@   requires ptpok(p) && wfps(ps)
-//@   ensures wfps(ps) && ps.length == old(ps.length)
-//@   modifies p.buf.n, p.buf.tok, p.buf.lit, gfield(rem), gfield(unread), gf(buflen), gfa(bufdata), ps.names, ps.models, ps.names[+], ps.models[+], ps.partitions[*]
-//@   loop 1
-//@     invariant ptpok(p) && p.s == old(p.s) && err == nil && wfps(ps) && ps.length == old(ps.length) && sameslice(ps.partitions, old(ps.partitions)) && nameskept(ps)
-//@     decreases (tok == EOF ? 0 : ptM(p) + 1)
-//@   loop 2
-//@     invariant ptpok(p) && p.s == old(p.s) && err == nil && wfps(ps) && ps.length == old(ps.length) && sameslice(ps.partitions, old(ps.partitions)) && nameskept(ps)
-//@     invariant tok == EOF || ptM(p) + 1 < $variant1
-//@     decreases (tok == EOF || tok == ENDOFLINE ? 0 : ptM(p) + 1)
+// ((*Parser).scan, (*Parser).unscan, (*Parser).parse: contracts in zz_contracts_c04c_verif.go: they now also serve C04)
 
 // Parse: for every input and every declared length >= 0 the result is a well-formed partition map over that
 // length: every site of [0, length) carries -1 or the code of a declared partition, no site >= length is assigned
@@ -107,4 +70,4 @@ package partition
 //@   requires ptpok(p) && alignmentLength >= 0
 //@   ensures partitionSet != nil && wfps(partitionSet) && partitionSet.length == alignmentLength
 //@   ensures len(partitionSet.partitions) == alignmentLength && (forall j :: 0 <= j && j < alignmentLength ==> -1 <= psite(partitionSet, j) && psite(partitionSet, j) < npart(partitionSet))
-//@   modifies p.buf.n, p.buf.tok, p.buf.lit, gfield(rem), gfield(unread), gf(buflen), gfa(bufdata)
+//@   modifies p.buf.n, p.buf.tok, p.buf.lit, gfield(rem), gfield(unread), gf(buflen), gfa(bufdata), gf(ptn; p), gfa(pttk; p), gfa(pttv; p)
